@@ -141,7 +141,9 @@ def split(env, method, k, g, nmax, chunk=0, nchunks=1, prelude=False):
     for (i, j) in bins:
         c = AGEFAC * wspd * math.cos(math.radians(d[j] - WDIR)) > float(cel[i]) * (1 + 0.0)
         if env.sym:
-            mask[(i, j)] = True if env.proves(c) else (False if env.proves(NOT(c)) else None)
+            # undetermined by the path condition (the code under test compared against something else):
+            # fork on the reference comparison, so that each side is judged against its own mask
+            mask[(i, j)] = True if env.proves(c) else (False if env.proves(NOT(c)) else bool(c))
         else:
             mask[(i, j)] = bool(AGEFAC * float(wspd) * np.cos((np.pi / 180.0) * (d[j] - WDIR)) > cel[i])
     if method != "ptm3" and any(v is None for v in mask.values()):
@@ -155,7 +157,7 @@ def split(env, method, k, g, nmax, chunk=0, nchunks=1, prelude=False):
             den = sum(basins[l][b] for b in bins if lab[b] == l)
             c = num > wscut * den
             if env.sym:
-                is_ws[l] = True if env.proves(c) else (False if env.proves(NOT(c)) else None)
+                is_ws[l] = True if env.proves(c) else (False if env.proves(NOT(c)) else bool(c))
             else:
                 is_ws[l] = bool(float(den) > 0 and float(num) / float(den) > float(wscut))
         if any(v is None for v in is_ws.values()):
